@@ -18,6 +18,7 @@ import (
 
 	"verif/engine/enum"
 	"verif/engine/report"
+	"verif/engine/sched"
 )
 
 var alphabet = []string{"a", ",", ";", "\"", "\n", "\r", " ", "#"}
@@ -406,8 +407,26 @@ func (e *explorer) seqShard(si int, sh seqShard) {
 }
 
 func main() {
+	sched.WorkerMain(exploreCodec)
 	r := report.Start("C16", "exploration")
 	if r.Replay != "" {
+		var probe struct {
+			Kind string `json:"kind"`
+		}
+		r.LoadReplay(&probe)
+		if probe.Kind == "codec-schedule" {
+			var sc SchedCase
+			r.LoadReplay(&sc)
+			cl, what := replayCodecSchedule(sc)
+			fmt.Printf("replay %+v\n  class=%q\n  %s\n", sc, cl, what)
+			if cl != "" {
+				r.Fail(cl, what, sc)
+			}
+			r.Eval(1)
+			r.Nontrivial(2)
+			r.Sample(sc)
+			r.Finish("replay of one schedule", false)
+		}
 		var c Case
 		r.LoadReplay(&c)
 		cl, what := check(c)
@@ -531,5 +550,7 @@ func main() {
 	r.Assume("encoding/csv (reader and writer of the Go standard library) is the definition of 'a standard CSV parse'",
 		"the reference reader is configured directly from the abstract option set, never through the code under test",
 		"a WriterTo source writes its text in one Write (as bytes.Buffer does); the variant that writes byte by byte is held to 'some error' on malformed input, because which goroutine's error wins is scheduling")
+	// overlapping calls on one codec value: every schedule within the preemption bound (controlled scheduler)
+	codecScheduleSweep(r)
 	r.Finish("every text over the 8-symbol alphabet up to the stated length x every kind (9 consumer destinations, 13 producer sources) x the option sets of the text's length tier (full product of the 9 option axes on the shortest texts, then default+singles+pairs, then default+singles[+pairs with a skip count]) x destination pre-states of *[][]string / *[]byte / *string, plus every consumer destination on each distinct longer text the codec itself wrote; plus shared-instance sequences: one CSVConsumer / CSVProducer value serving 2 (thorough also 3) consecutive calls, every ordered tuple of (kind, text) calls over the stated colliding texts per option set, every call compared with the same call on a fresh instance; plus environment faults: for the 16 documented kinds x 5 texts (one above 4096 bytes) x 4 option sets, one execution per destination-side and per source-side operation of the fault-free run with exactly that operation failing, a delivered fault must come back as an error; one evaluation = one Consume or Produce call on the real codec compared with encoding/csv; non-trivial = the call delivered at least one record, returned an error or panicked (distinct by construction: the enumerator never repeats a (kind, text, options, pre-state) tuple nor a (options, call sequence) tuple; codec-written texts are deduplicated and only used when longer than the longest enumerated text)", true)
 }
